@@ -184,6 +184,27 @@ func typedExtras() []*node {
 	for _, s := range seqs(sbs[:4], 0, 2) {
 		out = append(out, &node{K: kSliceSliceBin, Kids: s})
 	}
+	// typed containers of untyped containers: the walk that decides "does this packet carry binary?" and the
+	// deconstruction must descend through a map or slice whose ELEMENT type is itself a map or a slice
+	inner := []*node{
+		{K: kMapAny},
+		{K: kMapAny, Keys: []string{"k"}, Kids: []*node{lInt}},
+		{K: kMapAny, Keys: []string{"bin"}, Kids: []*node{bBytes}},
+		{K: kMapAny, Keys: []string{"bin", "k"}, Kids: []*node{bPlace, lStr}},
+	}
+	innerL := []*node{
+		{K: kSliceAny},
+		{K: kSliceAny, Kids: []*node{lInt}},
+		{K: kSliceAny, Kids: []*node{bBytes}},
+		{K: kSliceAny, Kids: []*node{lStr, bPlace}},
+	}
+	for _, s := range seqs(inner, 0, 2) {
+		out = append(out, &node{K: kMapMapAny, Kids: s, Keys: []string{"a", "b"}[:len(s)]})
+		out = append(out, &node{K: kSliceMapAny, Kids: s})
+	}
+	for _, s := range seqs(innerL, 0, 2) {
+		out = append(out, &node{K: kMapSliceAny, Kids: s, Keys: []string{"a", "b"}[:len(s)]})
+	}
 	ls := []*node{sbs[0], sbs[2], sbs[len(sbs)-1]}
 	ms := []*node{{K: kMapBin}, {K: kMapBin, Keys: []string{"a"}, Kids: []*node{bBytes}}, {K: kMapBin, Keys: []string{"a", "b"}, Kids: []*node{bPlace, bBytes}}}
 	for _, s := range sv {
@@ -345,7 +366,7 @@ func blocks(tier string) []block {
 				}
 			}
 		}, false},
-		{"typed", "statically typed nested containers (map[string]Binary, []S, []*S, map[string]*S, [][]Binary, T, *T) alone and next to a leading Binary", func(emit func(*packet)) {
+		{"typed", "statically typed nested containers (map[string]Binary, []S, []*S, map[string]*S, [][]Binary, T, *T, map[string]map[string]any, map[string][]any, []map[string]any) alone and next to a leading Binary", func(emit func(*packet)) {
 			for _, v := range typedExtras() {
 				emit(pk(parser.PacketTypeEvent, "/", "", "a", []*node{v}))
 				emit(pk(parser.PacketTypeAck, "/a", "10", "", []*node{bBytes, v}))
